@@ -1,14 +1,15 @@
 SPECIFICATION Spec
 CONSTANTS
   Jids = {"c1"}
-  Items <- ItemsOne
+  Items <- ItemsFields
   Ress = {"r1"}
-  Froms = {"absent", "stranger"}
+  Froms = {"absent", "ownFull", "stranger"}
   ConnKinds = {"plain", "smr", "resumed"}
   MaxReqs = 2
   MaxItems = 1
-  MaxHist = 4
+  MaxHist = 99
 CONSTRAINT ReqBound
-CONSTRAINT Bound
-ACTION_CONSTRAINT EmitBehaviour
+INVARIANTS TypeOK ViewIsRef PresIsLatest
+PROPERTIES UnauthPush FreshSession
+VIEW View
 CHECK_DEADLOCK FALSE
